@@ -22,7 +22,7 @@ class Ob:
 
     def __init__(self, rule, key, ok, what, where=None, detail=None, config="default"):
         self.rule = rule
-        self.key = key
+        self.key = key.replace(" ", "")
         self.ok = bool(ok)
         self.what = what
         self.where = where
